@@ -1784,5 +1784,13 @@ def vvreplay(obj):
             print("FAIL", f_["what"], json.dumps(f_["detail"]))
         print("replay: %d failure(s)" % len(res["failures"]))
         return 1 if res["failures"] else 0
+    # an API history rejected by VSessionTrace: execute the histories again (same seed: same inputs, masks and call sequences)
+    if isinstance(case.get("verdict"), dict) and "hist" in case["verdict"] and obj.get("property") in SESSION_OWNERS:
+        o2 = Outcome(obj["property"], obj.get("tier", "quick"), int(obj.get("seed", 0)))
+        session_pipeline(o2, obj.get("tier", "quick"), int(obj.get("seed", 0)), {"C13": 10, "C15": 6, "C09": 5}[obj["property"]], 4)
+        for sm, _ in o2.violations[:10]:
+            print("FAIL", sm[:400])
+        print("replay: %d failure(s)" % len(o2.violations))
+        return 1 if o2.violations else 0
     print("replay: nothing executable recorded in this file (the case is printed above)")
     return 2
